@@ -85,7 +85,9 @@ func footprint(out []objAcc, t *thread, c int) ([]objAcc, bool) {
 		}
 	case opLock:
 		if p.mu != nil {
-			if !p.mu.nover {
+			if p.mu.atomicSec {
+				out = append(out, objAcc{uintptr(unsafe.Pointer(p.mu)), !p.mu.readerSite(p.pc)})
+			} else if !p.mu.nover {
 				out = append(out, objAcc{uintptr(unsafe.Pointer(p.mu)), true})
 			}
 		} else if p.rw != nil {
